@@ -39,7 +39,7 @@ impl StorageSnapshot {
         let mut cache = self.stats_cache.lock().unwrap();
         if cache.is_none() {
             #[cfg(nervusdb_verif)]
-            let _vh2 = crate::verif::acquire("pager");
+            let _vh2 = crate::verif::acquire("pager.r");
             let pager = self.pager.read().unwrap();
             if let Ok(stats) = self.inner.get_statistics(&pager) {
                 *cache = Some(stats);
@@ -127,7 +127,7 @@ impl GraphSnapshot for StorageSnapshot {
         prefix.extend_from_slice(&encode_ordered_value(&storage_value));
 
         #[cfg(nervusdb_verif)]
-        let _vh4 = crate::verif::acquire("pager");
+        let _vh4 = crate::verif::acquire("pager.r");
         let pager = self.pager.read().unwrap();
         let mut cursor = tree.cursor_lower_bound(&pager, &prefix).ok()?;
 
@@ -198,7 +198,7 @@ impl GraphSnapshot for StorageSnapshot {
         }
 
         #[cfg(nervusdb_verif)]
-        let _vh5 = crate::verif::acquire("pager");
+        let _vh5 = crate::verif::acquire("pager.r");
         let pager = self.pager.read().unwrap();
         let storage_val =
             read_node_property_from_store(&pager, self.inner.properties_root, iid, key)?;
@@ -216,7 +216,7 @@ impl GraphSnapshot for StorageSnapshot {
         }
 
         #[cfg(nervusdb_verif)]
-        let _vh6 = crate::verif::acquire("pager");
+        let _vh6 = crate::verif::acquire("pager.r");
         let pager = self.pager.read().unwrap();
         let storage_val =
             read_edge_property_from_store(&pager, self.inner.properties_root, edge, key)?;
@@ -228,7 +228,7 @@ impl GraphSnapshot for StorageSnapshot {
 
         if self.inner.properties_root != 0 {
             #[cfg(nervusdb_verif)]
-            let _vh7 = crate::verif::acquire("pager");
+            let _vh7 = crate::verif::acquire("pager.r");
             let pager = self.pager.read().unwrap();
             extend_node_properties_from_store(&pager, self.inner.properties_root, iid, &mut props)?;
         }
@@ -249,7 +249,7 @@ impl GraphSnapshot for StorageSnapshot {
 
         if self.inner.properties_root != 0 {
             #[cfg(nervusdb_verif)]
-            let _vh8 = crate::verif::acquire("pager");
+            let _vh8 = crate::verif::acquire("pager.r");
             let pager = self.pager.read().unwrap();
             extend_edge_properties_from_store(
                 &pager,
